@@ -13,7 +13,9 @@ import coq as coqlib
 import repo as repolib
 
 PROBE_ENV = {'NIXV_C01_UBPROBE': '1', 'NIXV_C01_XPROBE': '1', 'NIXV_C16': '1'}
-QUICK_PER_PROP = 300
+QUICK_PER_PROP = 150
+# streams whose cases are whole sessions (sha of the file around ~250 mutators, fork + SIGKILL harness): fewer in the quick tier
+QUICK_OVERRIDE = {'C09': 30, 'C11': 8}
 
 
 class C16(Prop):
@@ -78,11 +80,12 @@ class C16(Prop):
                 except RuntimeError:
                     model_exe = None
                 cases = sp.corpus() + sp.generate(seed, tier, 1)
-                if tier == 'quick' and len(cases) > QUICK_PER_PROP:
+                cap = QUICK_OVERRIDE.get(sp.id, QUICK_PER_PROP)
+                if tier == 'quick' and len(cases) > cap:
                     rnd = random.Random(seed)
                     probes = [c for c in cases if 'probe' in c.tag or 'malformed' in c.tag or 'misuse' in c.tag or 'crash' in c.tag]
                     rest = [c for c in cases if c not in probes]
-                    cases = probes[:QUICK_PER_PROP] + rnd.sample(rest, min(len(rest), QUICK_PER_PROP))
+                    cases = probes[:cap] + rnd.sample(rest, min(len(rest), cap))
                 if not samples and cases:
                     samples = pick_samples(cases)
                 impl_res, crashes = run_sharded(impl_exe, sp.impl_args, cases, 'C16-' + sp.id + '-impl', True)
